@@ -702,6 +702,16 @@ func runC01(c *Ctx) {
 		Dgrams: []chainDgram{mk6(1, macA, nil, nilHint), mk6(1, macA, nil, nilHint), mk6(3, macA, nil, nilHint, lenHint), mk6(1, macB, nil, noHint), mk6(3, macB, nil, nilHint),
 			mk6(5, macB, nil, lenHint, nilHint, noHint), mk6(1, macA, nil, noHint)}})
 	{
+		// a client that holds the first block renews it with hints in every order relative to prefixes it does not hold
+		h := func(ip string) pdHint { return pdHint{ip: net.ParseIP(ip), plen: 64} }
+		own, free, other := h("2001:db8:0:100::"), h("2001:db8:0:102::"), h("2001:db8:0:101::")
+		ia := func(hs ...pdHint) pdIA { return pdIA{iaid: [4]byte{0, 0, 0, 1}, hints: hs} }
+		scen("prefix: renewals listing the held prefix after, before and between prefixes not held", chainSpec{
+			Plugins6: []chainPlug{{"server_id", []string{"LL", "00:de:ad:be:ef:00"}}, {"prefix", []string{"2001:db8:0:100::/62", "64"}}},
+			Dgrams: []chainDgram{mk6(1, macA, nil, noHint), mk6(1, macB, nil, noHint), mk6(1, macA, nil, ia(free, own)), mk6(1, macA, nil, ia(own, other)),
+				mk6(1, macA, nil, ia(other, own, free)), mk6(1, macB, nil, ia(own, other)), mk6(1, macA, nil, ia(h("2001:dead::"), own)), mk6(1, macB, nil, ia(free, free, other))}})
+	}
+	{
 		var dg []chainDgram
 		for i := 0; i < 6; i++ { // exhaust a 3-address range, then new and known clients
 			dg = append(dg, mk4(1, []byte{2, 1, 0, 0, 0, byte(i)}, true))
